@@ -9,6 +9,7 @@ import (
 	"runtime/debug"
 	"sort"
 	"strings"
+	"sync"
 	"time"
 
 	kruisev1alpha1 "github.com/openkruise/kruise-api/apps/v1alpha1"
@@ -110,21 +111,20 @@ func (c *Controller) dequeue(k types.NamespacedName) {
 type fakeQueue struct {
 	workqueue.RateLimitingInterface
 	c *Controller
+	w *World
 }
 
 func (q *fakeQueue) Add(item interface{}) {
 	if r, ok := item.(reconcile.Request); ok {
+		q.w.mu.Lock()
 		q.c.enqueue(r.NamespacedName, "event")
+		q.w.mu.Unlock()
 	}
 }
-func (q *fakeQueue) AddAfter(item interface{}, d time.Duration) {
-	if r, ok := item.(reconcile.Request); ok {
-		q.c.enqueue(r.NamespacedName, "event")
-	}
-}
-func (q *fakeQueue) AddRateLimited(item interface{}) { q.Add(item) }
-func (q *fakeQueue) Forget(item interface{})         {}
-func (q *fakeQueue) Done(item interface{})           {}
+func (q *fakeQueue) AddAfter(item interface{}, d time.Duration) { q.Add(item) }
+func (q *fakeQueue) AddRateLimited(item interface{})            { q.Add(item) }
+func (q *fakeQueue) Forget(item interface{})                    {}
+func (q *fakeQueue) Done(item interface{})                      {}
 
 // Outcome of one reconcile.
 type Outcome struct {
@@ -138,6 +138,7 @@ type Outcome struct {
 	PanicSite      string
 	PanicStack     string
 	AliasMutations []string
+	seen           int // store write count when the reconcile started
 }
 
 // World is one simulated cluster with the controllers under test.
@@ -157,6 +158,17 @@ type World struct {
 	// Trace, if set, receives a line per action.
 	Trace   func(string)
 	Actions int
+
+	// mu guards the controllers' queue state, rid and the panic / alias lists (reconciles may run on several goroutines
+	// in concurrent mode); pendMu guards pending, which is appended to under the store lock by whichever goroutine commits.
+	mu       sync.Mutex
+	pendMu   sync.Mutex
+	concOnce sync.Once
+	cs       *concState
+	// OnOutcome, if set, is called (under mu) with the outcome of every reconcile.
+	OnOutcome func(*Outcome)
+	// Concurrent switches off the per-reconcile bookkeeping that assumes one reconcile at a time (alias tracking).
+	Concurrent bool
 }
 
 // Options for building a world.
@@ -165,6 +177,7 @@ type Options struct {
 	GraceSeconds int32
 	NoAdmission  bool
 	UIDPrefix    string
+	Concurrent   bool
 }
 
 var oldGrace [3]int32
@@ -174,7 +187,7 @@ func NewWorld(opt Options) (*World, error) {
 	scheme := NewScheme()
 	st := simapi.NewStore(scheme)
 	st.UIDPrefix = opt.UIDPrefix
-	w := &World{Scheme: scheme, Store: st, RepoDir: opt.RepoDir}
+	w := &World{Scheme: scheme, Store: st, RepoDir: opt.RepoDir, Concurrent: opt.Concurrent}
 	if !opt.NoAdmission {
 		adm, err := simapi.NewAdmission(st, opt.RepoDir)
 		if err != nil {
@@ -189,7 +202,11 @@ func NewWorld(opt Options) (*World, error) {
 	trafficrouting.VerifSetGracePeriodSeconds(opt.GraceSeconds)
 	trctrl.VerifSetGracePeriodSeconds(opt.GraceSeconds)
 	w.Env = env.New(st.As("env"))
-	st.OnEvent = append(st.OnEvent, func(e simapi.Event) { w.pending = append(w.pending, e) })
+	st.OnEvent = append(st.OnEvent, func(e simapi.Event) {
+		w.pendMu.Lock()
+		w.pending = append(w.pending, e)
+		w.pendMu.Unlock()
+	})
 	w.buildControllers()
 	return w, nil
 }
@@ -197,7 +214,9 @@ func NewWorld(opt Options) (*World, error) {
 func (w *World) newController(name, actor string) *Controller {
 	c := &Controller{Name: name, Actor: actor, Timers: map[types.NamespacedName]time.Time{}, Idle: map[types.NamespacedName]int{}, IdleRuns: map[types.NamespacedName]int{}, Woken: map[string]int{}}
 	c.Client = w.Store.As(actor)
-	c.Client.Alias = &c.alias
+	if !w.Concurrent {
+		c.Client.Alias = &c.alias
+	}
 	return c
 }
 
@@ -303,9 +322,15 @@ func (w *World) toClientObject(gvk schema.GroupVersionKind, o simapi.Obj) client
 // DeliverEvents feeds all pending watch events to the real handlers of every controller.
 func (w *World) DeliverEvents() int {
 	n := 0
-	for len(w.pending) > 0 {
+	for {
+		w.pendMu.Lock()
+		if len(w.pending) == 0 {
+			w.pendMu.Unlock()
+			break
+		}
 		ev := w.pending[0]
 		w.pending = w.pending[1:]
+		w.pendMu.Unlock()
 		n++
 		gk := ev.GVK.GroupKind()
 		var oldO, newO client.Object
@@ -320,11 +345,13 @@ func (w *World) DeliverEvents() int {
 				if newO == nil && ev.New != nil {
 					newO = w.toClientObject(ev.GVK, ev.New)
 				}
-				q := &fakeQueue{c: c}
+				q := &fakeQueue{c: c, w: w}
 				func() {
 					defer func() {
 						if p := recover(); p != nil {
+							w.mu.Lock()
 							w.Panics = append(w.Panics, Outcome{Ctrl: c.Name + "/handler", Panic: fmt.Sprint(p), PanicStack: string(debug.Stack())})
+							w.mu.Unlock()
 						}
 					}()
 					switch ev.Type {
@@ -347,14 +374,29 @@ func (w *World) DeliverEvents() int {
 
 // Reconcile runs one reconcile of controller c for key k.
 func (w *World) Reconcile(c *Controller, k types.NamespacedName) (out Outcome) {
+	before := w.beginReconcile(c, k)
+	out = w.runReconcile(c, k, before)
+	w.finishReconcile(c, k, &out)
+	return out
+}
+
+func (w *World) beginReconcile(c *Controller, k types.NamespacedName) int {
+	w.mu.Lock()
+	defer w.mu.Unlock()
 	w.rid++
-	w.Store.SetRid(c.Actor, w.rid)
-	before := w.Store.Writes()
-	c.alias = c.alias[:0]
+	if !w.Concurrent {
+		w.Store.SetRid(c.Actor, w.rid)
+		c.alias = c.alias[:0]
+	}
 	c.dequeue(k)
 	delete(c.Timers, k)
 	c.Reconciles++
-	out = Outcome{Ctrl: c.Name, Key: k}
+	return w.Store.Writes()
+}
+
+// runReconcile calls the real reconciler (no harness lock held).
+func (w *World) runReconcile(c *Controller, k types.NamespacedName, before int) (out Outcome) {
+	out = Outcome{Ctrl: c.Name, Key: k, seen: before}
 	func() {
 		defer func() {
 			if p := recover(); p != nil {
@@ -369,23 +411,35 @@ func (w *World) Reconcile(c *Controller, k types.NamespacedName) (out Outcome) {
 		}()
 		out.Result, out.Err = c.Rec.Reconcile(context.TODO(), ctrl.Request{NamespacedName: k})
 	}()
-	w.Store.SetRid(c.Actor, 0)
+	// in concurrent mode this counts the writes of every actor during the reconcile: > 0 only means "maybe wrote"
 	out.Writes = w.Store.Writes() - before
-	// cache-alias monitor: objects obtained from no-deep-copy lists must not have been mutated
-	for _, a := range c.alias {
-		b, _ := json.Marshal(a.Obj)
-		if string(b) != a.JSON {
-			out.AliasMutations = append(out.AliasMutations, a.Key.String())
-		}
+	return out
+}
+
+func (w *World) finishReconcile(c *Controller, k types.NamespacedName, out *Outcome) {
+	w.mu.Lock()
+	defer w.mu.Unlock()
+	if w.OnOutcome != nil {
+		w.OnOutcome(out)
 	}
-	if len(out.AliasMutations) > 0 {
-		w.AliasViolations = append(w.AliasViolations, fmt.Sprintf("%s reconcile %s mutated shared cache objects %v", c.Name, k, out.AliasMutations))
+	if !w.Concurrent {
+		w.Store.SetRid(c.Actor, 0)
+		// cache-alias monitor: objects obtained from no-deep-copy lists must not have been mutated
+		for _, a := range c.alias {
+			b, _ := json.Marshal(a.Obj)
+			if string(b) != a.JSON {
+				out.AliasMutations = append(out.AliasMutations, a.Key.String())
+			}
+		}
+		if len(out.AliasMutations) > 0 {
+			w.AliasViolations = append(w.AliasViolations, fmt.Sprintf("%s reconcile %s mutated shared cache objects %v", c.Name, k, out.AliasMutations))
+		}
 	}
 	if out.Crashed || out.Panic != "" {
 		if out.Panic != "" {
-			w.Panics = append(w.Panics, out)
+			w.Panics = append(w.Panics, *out)
 		}
-		return out
+		return
 	}
 	switch {
 	case out.Err != nil:
@@ -401,18 +455,19 @@ func (w *World) Reconcile(c *Controller, k types.NamespacedName) (out Outcome) {
 		c.Timers[k] = time.Now().Add(d)
 		c.Woken["timer"]++
 	}
+	// the state this reconcile looked at; a write that landed after it started re-enables the key
+	now := out.seen
 	if out.Writes == 0 {
-		if c.Idle[k] == w.Store.Writes() {
+		if c.Idle[k] == now {
 			c.IdleRuns[k]++
 		} else {
 			c.IdleRuns[k] = 1
 		}
-		c.Idle[k] = w.Store.Writes()
+		c.Idle[k] = now
 	} else {
 		c.IdleRuns[k] = 0
 		c.Idle[k] = -1
 	}
-	return out
 }
 
 func panicSite(stack string) string {
@@ -443,14 +498,20 @@ func (w *World) Restart() {
 	w.Restarts++
 	grace.ResetExpectations()
 	expectations.ResourceExpectations = expectations.NewResourceExpectations()
+	w.pendMu.Lock()
 	w.pending = nil
+	w.pendMu.Unlock()
+	w.mu.Lock()
 	w.buildControllers()
+	w.mu.Unlock()
 	v := w.Store.Snapshot()
+	w.pendMu.Lock()
 	for _, k := range v.Keys() {
 		o := v.GetKey(k)
 		gv, _ := schema.ParseGroupVersion(simapi.Str(o, "apiVersion"))
 		w.pending = append(w.pending, simapi.Event{Type: "ADDED", Key: k, GVK: gv.WithKind(k.Kind), New: o})
 	}
+	w.pendMu.Unlock()
 	w.DeliverEvents()
 }
 
@@ -463,6 +524,8 @@ func ResetProcessGlobals() {
 // EnabledReconciles lists (controller, key) pairs that may run now. Keys that reconciled without writing since the
 // last store change are skipped until the store changes or their timer is due again.
 func (w *World) EnabledReconciles(now time.Time) (ready []RecKey, timers []RecKey) {
+	w.mu.Lock()
+	defer w.mu.Unlock()
 	for _, c := range w.Ctrls {
 		for _, k := range c.Ready {
 			ready = append(ready, RecKey{c, k})
